@@ -11,8 +11,8 @@ CONSTANTS
   VoidNames = {"img", "br", "wbr"}
   AttrChoices <- AttrChoicesNone
   WsChoices = {"", "h", "v"}
-  Words = {"w1", "w3"}
-  Exprs = {"E1"}
+  Words = {"w1", "w3", "w4"}
+  Exprs = {"E1", "E3"}
   Conds = {"C1", "C2"}
   Lists = {"L1"}
   EnvSeq <- EnvSeqOne
